@@ -51,7 +51,7 @@ def meta(tier):
                 'endianness x address width); each history is completed with constants K0/K1, definitions for labels that were '
                 'referenced but not defined (so references are forward as well as backward) and a suffix that emits every '
                 'label value; the whole image from address 0 must equal the reference layout; non-trivial = history with a '
-                'label reference and an address-moving line (origin/align/zone/fill); plus every history up to depth 4 (thorough 5) over a 12-symbol multi-file alphabet (labels, references, origins, zone switches, alignment, and includes of a plain file, of a file that switches zone, of a file with its own origin), with every label of every file read out at the end; plus a 64-bit address space with origins at and above 2^53 x 5 alignments x 0..7 bytes before the alignment; states = distinct reference states',
+                'label reference and an address-moving line (origin/align/zone/fill); plus every history up to depth 4 (thorough 5) over a 12-symbol multi-file alphabet (labels, references, origins, zone switches, alignment, and includes of a plain file, of a file that switches zone, of a file with its own origin), with every label of every file read out at the end; plus a 64-bit address space with origins at and above 2^53 x 5 alignments x 0..7 bytes before the alignment; programs that fill an 8- / 16-bit address space to its last byte and define a label there (value 2^n, referenced before and after); states = distinct reference states',
         'bounds': {'alphabet': [R.render_stmt(s) if s[0] != 'excluded' else '#if 0 / .byte 1,2,3 / G9: / #endif' for s in SIGMA],
                    'depth_full': 3 if q else 4, 'depth_core': 4 if q else 5, 'configs': [c[0] for c in CONFIGS]},
         'assumptions': [
@@ -59,7 +59,7 @@ def meta(tier):
             'does not say which of the two addresses "the next line" has)',
             'muted lines occupy addresses', 'constants defined from address labels are not generated',
         ],
-        'floors': {'evaluations': 1000, 'nontrivial': 100, 'statuses': ['OK', 'REJECT'], 'clauses': ['accepted', 'multi-file', 'wide-address']},
+        'floors': {'evaluations': 1000, 'nontrivial': 100, 'statuses': ['OK', 'REJECT'], 'clauses': ['accepted', 'multi-file', 'wide-address', 'top-of-memory']},
         'nshards': 64,
     }
 
@@ -122,6 +122,7 @@ def shard(acc, tier, idx, n):
                 acc.state((ci, ref.state_key) if ref.status != 'REJECT' else (ci, 'REJECT'))
     multi_file(acc, idx, n, q)
     wide_addresses(acc, idx, n)
+    top_of_memory(acc, idx, n)
 
 
 MULTI = [('label', 'G0'), ('nop',), ('jmp', ('lab', 'G0')), ('data', 2, [('lab', 'G1')]), ('org', 2, 'zz'), ('memzone', 'zz'), ('memzone', 'GLOBAL'),
@@ -192,6 +193,32 @@ def wide_addresses(acc, idx, n):
         ref, out, msg = run_program(acc, params, isa, files, start=base, end=base + 63, clause='wide-address',
                                     nontrivial=('wide', base, k, pre), sample=(pre == 3 and k == 16))
         acc.state(('wide', base, k, pre))
+
+
+def top_of_memory(acc, idx, n):
+    """A program that fills its address space to the last byte: the label that follows has the value 2^address_size (one past the top),
+    wherever it is referenced; a byte placed there is rejected."""
+    import itertools
+    ctr = 0
+    for bits, k, filler, tail in itertools.product((8, 16), (1, 2, 6), ('bytes', 'zerountil', 'fill'), ('label', 'label+nop', 'two-labels')):
+        ctr += 1
+        if ctr % n != idx:
+            continue
+        top = (1 << bits) - 1
+        params = R.Params(address_size=bits, endian='little', origin=0, page_size=1)
+        isa = probe_isa(bits, 'little')
+        fill = {'bytes': [('data', 1, list(range(1, k + 1)))], 'zerountil': [('zerountil', top)], 'fill': [('fill', k, 0x5A)]}[filler]
+        stmts = [('data', 2, [('lab', 'TOPEND')]), ('data', 2, [('lab+', 'TOPEND', -3)]), ('label', 'G0'), ('nop',),
+                 ('org', top - k + 1, None)] + fill + [('label', 'TOPEND')]
+        if tail == 'label+nop':
+            stmts.append(('nop',))
+        elif tail == 'two-labels':
+            stmts.append(('label', 'TOPEND2'))
+            stmts[1] = ('data', 2, [('lab', 'TOPEND2')])
+        files = {'main.asm': stmts}
+        ref, out, msg = run_program(acc, params, isa, files, clause='top-of-memory', nontrivial=('top', bits, k, filler, tail),
+                                    sample=(k == 2 and filler == 'bytes'))
+        acc.state(('top', bits, k, filler, tail))
 
 
 def judge(spec, outcomes):
